@@ -525,6 +525,27 @@ func check(c Case) pbt.Verdict {
 		if !ok {
 			return pbt.Failf("wrong-value:"+c.Expr.Fn, "%s should be %s, returned %s", text, val.Canon(want.V), val.Canon(got))
 		}
+		// the value returned stays what it is when a sibling call is made on the same arguments (the same call
+		// again and, where the arity allows it, with one more trailing argument)
+		if argsOK {
+			extra := map[string]string{"concat": " [:zz]", "conj": " :zz", "list": " :zz", "vector": " :zz", "assoc": " \"zz\" 1", "merge": " {\"zz\" 1}",
+				"dissoc": " \"zz\"", "hash-map": " \"zz\" 1", "hash-set": " \"zz\"", "cons": ""}[c.Expr.Fn]
+			sibs := []string{callText, strings.TrimSuffix(callText, ")") + extra + ")"}
+			if repl, ok := map[string]string{"concat": "[:zz]", "conj": ":zz", "list": ":zz", "vector": ":zz", "hash-set": "\"zz\""}[c.Expr.Fn]; ok && len(c.Expr.Args) >= 2 {
+				// … and with the last argument replaced by another one
+				last := fmt.Sprintf(" verif-arg%d)", len(c.Expr.Args)-1)
+				sibs = append(sibs, strings.TrimSuffix(callText, last)+" "+repl+")")
+			}
+			for _, sib := range sibs {
+				sr := box.ReadEval(ctx, sib, e)
+				if sr.Panicked {
+					return pbt.Failf("panic:"+sr.PanicSite, "%s panicked: %v", sib, sr.PanicVal)
+				}
+				if now := val.From(r.Val); !val.Eq(now, got) {
+					return pbt.Failf("result-changed-later:"+c.Expr.Fn, "%s returned %s; after the sibling call %s (arguments bound as in the first call) that same value reads %s", text, val.Canon(got), sib, val.Canon(now))
+				}
+			}
+		}
 	}
 	v.NonTrivial = boundary(c.Expr) || c.Expr.depth() >= 2
 	_ = fmt.Sprint
